@@ -10,3 +10,5 @@ import MicroHttp.Props.Tables
 #print axioms MicroHttp.Tables.no_interior_mutability
 #print axioms MicroHttp.Tables.server_new
 #print axioms MicroHttp.Tables.server_new_from_fd
+#print axioms MicroHttp.Tables.client_fields
+#print axioms MicroHttp.Tables.server_fields
